@@ -1336,6 +1336,7 @@ def run(ck):
   with multiprocessing.Pool(nproc) as pool:
     results = pool.map(run_case, args, chunksize=1 if ck.tier == "quick" else 4)
   report(ck, results)
+  summary_family(ck)
   witness(ck)
 
 
@@ -1376,6 +1377,118 @@ def report(ck, results):
       ck.broken("correspondence grist_names() vs ground-truth occurrences",
                 "%s: model %r engine %r (no rename of that entity changed a value or text)" % m[:3],
                 dict(m[3] or {}, where=m[0], model=m[1], engine=m[2]))
+
+
+# --------------------------------------------------------------------------- summary tables ("sister" columns)
+
+# (a comprehension over $group, `SUM(r.x for r in $group)`, is the recorded finding "comprehension over a
+#  RefList column" with its own witness below; it is not repeated here)
+SIS_FORMULAS = ["MAX($group.%s)", "MIN($group.%s)", "SUM($group.%s) + 1", "SUM($group.%s) - MIN($group.%s)",
+                "len($group) + SUM($group.%s)", "SUM($group.%s) * 2 if $count else 0"]
+SIG_SUM_VALUE = "summary tables: a formula value changes under a rename of a source column"
+SIG_SUM_TEXT = "summary tables: formula of a same-named summary column is not the old text with exactly the renamed name replaced"
+
+
+def _by_ref(doc):
+  """{(tableRef, colRef): (tableId, colId, formula, [tokens])} for every user-table column."""
+  tabs = dict((t["id"], t["tableId"]) for t in doc.meta("_grist_Tables"))
+  out = {}
+  snap = doc.snapshot(tables=doc.user_tables())
+  for c in doc.meta("_grist_Tables_column"):
+    tid = tabs.get(c["parentId"])
+    if tid in snap and c["colId"] in snap[tid]["cols"]:
+      out[(c["parentId"], c["id"])] = (tid, c["colId"], c["formula"], (snap[tid]["ids"], snap[tid]["cols"][c["colId"]]))
+  return out
+
+
+def _judge_summary_rename(ck, doc, before, key, old, ua, replay):
+  import re
+  key = tuple(key)
+  after = _by_ref(doc)
+  newid = after[key][1]
+  if newid == old:
+    return False
+  changed = False
+  for kk, (t0, c0, f0, v0) in before.items():
+    if kk not in after:
+      ck.violation("summary tables: a column disappears under a rename", "%s.%s under %r" % (t0, c0, ua), replay)
+      continue
+    (t1, c1, f1, v1) = after[kk]
+    if v0 != v1:
+      ck.violation(SIG_SUM_VALUE, "%s.%s (now %s.%s, formula %r -> %r) under %r: %r -> %r" % (
+        t0, c0, t1, c1, f0, f1, ua, v0[1][:6], v1[1][:6]), replay)
+    if f0:
+      want = re.sub(r"(?<=[.$])%s\b" % re.escape(old), newid, f0)
+      if f1 != want:
+        ck.violation(SIG_SUM_TEXT, "%s.%s: %r -> %r, expected %r under %r" % (t0, c0, f0, f1, want, ua), replay)
+      if f1 != f0:
+        changed = True
+  return changed
+
+
+def summary_family(ck):
+  """Renames of source columns that have same-named formula columns in several summary tables, some of
+  them replaced by hand with a different formula (useractions._adjust_one_column_update and
+  summary.py keep such columns in step); rename paths: RenameColumn, colId update, label update."""
+  import re
+  from gx import engine_driver as ed
+  rng = ck.rng
+  n = 10 if ck.tier == "quick" else 250
+  for case in range(n):
+    doc = ed.Doc()
+    hist = []
+    def do(b):
+      hist.append(b)
+      return doc.apply(b)
+    cols = [{"id": "g1", "type": "Text", "isFormula": False, "formula": ""},
+            {"id": "g2", "type": "Int", "isFormula": False, "formula": ""},
+            {"id": "x", "type": "Numeric", "isFormula": False, "formula": ""},
+            {"id": "y", "type": "Int", "isFormula": False, "formula": ""},
+            {"id": "z", "type": "Any", "isFormula": True, "formula": "$x * 2 + $y"}]
+    assert do([["AddTable", "S", cols]]).ok
+    k = rng.randint(3, 7)
+    assert do([["BulkAddRecord", "S", [None] * k, {"g1": [rng.choice("ab") for _ in range(k)],
+                                                   "g2": [rng.choice([1, 2]) for _ in range(k)],
+                                                   "x": [rng.choice([1, 10, 100, 1000, 2.5]) for _ in range(k)],
+                                                   "y": [rng.randint(0, 9) for _ in range(k)]}]]).ok
+    colref = dict((c["colId"], c["id"]) for c in doc.meta("_grist_Tables_column") if c["parentId"] == 1)
+    groupings = rng.sample([["g1"], ["g2"], ["g1", "g2"], []], rng.choice([1, 2, 2, 3]))
+    for gb in groupings:
+      assert do([["CreateViewSection", 1, 0, "record", [colref[g] for g in gb], None]]).ok
+    sums = [t for t in doc.user_tables() if t.startswith("S_summary")]
+    replaced = 0
+    for st in sums:
+      for c in ("x", "y"):
+        if rng.random() < 0.5:
+          tmpl = rng.choice(SIS_FORMULAS)
+          f = tmpl % ((c,) * tmpl.count("%s"))
+          r = do([["RemoveColumn", st, c], ["AddColumn", st, c, {"type": "Any", "isFormula": True, "formula": f}]])
+          replaced += 1 if r.ok else 0
+      if rng.random() < 0.4:
+        do([["AddColumn", st, "extra", {"type": "Any", "isFormula": True, "formula": "SUM($group.x) + SUM($group.y) + $count"}]])
+    for step in range(rng.randint(2, 4)):
+      before = _by_ref(doc)
+      src = [(k_, v) for k_, v in before.items() if v[0] == "S" and v[1] not in ("manualSort", "z")]
+      (key, (tid, old, _f, _v)) = rng.choice(src)
+      new = rng.choice(["amount", "Net Amount", "x", "y", "g1", "total", "count", "group", "x2", "A"])
+      path = rng.choice(["RenameColumn", "colId", "label"])
+      if path == "RenameColumn":
+        ua = ["RenameColumn", "S", old, new]
+      elif path == "colId":
+        ua = ["UpdateRecord", "_grist_Tables_column", key[1], {"colId": new}]
+      else:
+        ua = ["UpdateRecord", "_grist_Tables_column", key[1], {"label": new}]
+      res = do([ua])
+      ck.evaluated()
+      if not res.ok:
+        ck.count("summary_family_rejected")
+        hist.pop()
+        continue
+      replay = {"summary_family": True, "history": [list(b) for b in hist], "key": list(key), "old": old}
+      changed = _judge_summary_rename(ck, doc, before, key, old, ua, replay)
+      if changed and replaced:
+        ck.nontrivial_case(["summary_family", case, step, ua])
+      ck.count("summary_family_renames")
 
 
 # --------------------------------------------------------------------------- fixed witness of the known finding
@@ -1504,7 +1617,17 @@ def replay_one(r, verbose=True):
 def replay(ck, rp):
   r = rp["replay"]
   ck.evaluated()
-  if "build" in r:
+  if r.get("summary_family"):
+    from gx import common, engine_driver as ed
+    doc = ed.Doc()
+    for b in r["history"][:-1]:
+      doc.apply(b)
+    before = _by_ref(doc)
+    res = doc.apply(r["history"][-1])
+    print("replay: rename %r ok=%s" % (r["history"][-1], res.ok))
+    if res.ok:
+      _judge_summary_rename(ck, doc, before, r["key"], r["old"], r["history"][-1][0], r)
+  elif "build" in r:
     bad = replay_one(r)
     if bad:
       ck.violation(bad[0], bad[1], r)
